@@ -149,12 +149,17 @@ theorem procCtlClient_cons (s : State) (id : Nat) (rest : List Nat) :
 
 /-! ### the accept / reject filter, the bookkeeping, the `Ok(None)` decision -/
 
-def holds (s : State) : Gen.GoawayArms.Cond → Bool
+def holds (refused : Bool) (s : State) : Gen.GoawayArms.Cond → Bool
   | .recvClosingIsSome => s.recvClosing.isSome
   | .sentClosingIsSome => s.sentClosing.isSome
   /- `poll_requests_completion(cx).is_ready()`: nothing is left in `ongoing_streams` once the
      channel has been emptied (the model: completions are seen at once) -/
   | .requestsCompleted => s.ongoing.isEmpty
+  /- the local flag the reject branch raises -/
+  | .rejectedHere => refused
+
+/-- a conjunction of alternatives -/
+def allAny (f : Gen.GoawayArms.Cond → Bool) (cs : List (List Gen.GoawayArms.Cond)) : Bool := cs.all (·.any f)
 
 /-- `if let Some(max_id) = self.sent_closing { if s.send_id() <cmp> max_id { … } }` -/
 theorem rejects_agrees (sent : Option Nat) (id : Nat) :
@@ -165,8 +170,9 @@ theorem rejects_agrees (sent : Option Nat) (id : Nat) :
   cases sent <;> rfl
 
 /-- `Poll::Pending` of the transport: `Ok(None)` iff every generated condition holds -/
-theorem drained_agrees (s : State) : drained s = Gen.GoawayArms.pendingDone.all (holds s) := by
-  simp [drained, Gen.GoawayArms.pendingDone, holds]
+theorem drained_agrees (refused : Bool) (s : State) :
+    drained refused s = allAny (holds refused s) Gen.GoawayArms.pendingDone := by
+  simp [drained, Gen.GoawayArms.pendingDone, holds, allAny]
 
 /-- the poll function answered `None`: `accept` sends the last GOAWAY with the generated argument -/
 def genAcceptNone (s : State) : Option (State × List Obs) :=
@@ -185,19 +191,31 @@ def runSurface (id : Nat) (rest : List Nat) : List Gen.GoawayArms.SurfOp → Sta
 theorem surface_agrees (s : State) (id : Nat) (rest : List Nat) :
     some (surface s id rest, [Obs.surfaced id]) = runSurface id rest Gen.GoawayArms.surfaceOps s := rfl
 
+/-- what the reject branch does besides closing the stream -/
+inductive RejReading where
+  /-- `Ok(None)` at once under this condition, else the next stream of the queue (the shape before
+      the D-08b repair; the model has no such exit) -/
+  | noneIfElseNext (c : Gen.GoawayArms.Cond)
+  /-- the flag is raised (or left alone), then the next stream of the queue -/
+  | next (mark : Bool)
+deriving DecidableEq
+
 /-- the reject branch: both directions of the stream are closed with H3_REQUEST_REJECTED (the
-    model's observation `rejected id`); then `Ok(None)` under the generated condition, else the next
-    stream of the queue -/
-def rejectReading : List Gen.GoawayArms.RejOp → Option Gen.GoawayArms.Cond
+    model's observation `rejected id`); then the rest as read by `RejReading` -/
+def rejectReading : List Gen.GoawayArms.RejOp → Option RejReading
   | [.stopSending a, .reset b, .noneIf c, .next] =>
-    if a = CODE_H3_REQUEST_REJECTED ∧ b = CODE_H3_REQUEST_REJECTED then some c else none
+    if a = CODE_H3_REQUEST_REJECTED ∧ b = CODE_H3_REQUEST_REJECTED then some (.noneIfElseNext c) else none
+  | [.stopSending a, .reset b, .markRejected, .next] =>
+    if a = CODE_H3_REQUEST_REJECTED ∧ b = CODE_H3_REQUEST_REJECTED then some (.next true) else none
+  | [.stopSending a, .reset b, .next] =>
+    if a = CODE_H3_REQUEST_REJECTED ∧ b = CODE_H3_REQUEST_REJECTED then some (.next false) else none
   | _ => none
 
 /-- the loop of `poll_accept_request_stream_internal` written over the generated items -/
-def genAcceptLoop (s : State) : List Nat → Option (State × List Obs)
+def genAcceptLoop (refused : Bool) (s : State) : List Nat → Option (State × List Obs)
   | [] =>
     let s0 := { s with incoming := [] }
-    if Gen.GoawayArms.pendingDone.all (holds s0) then genAcceptNone s0 else some (s0, [.acceptPending])
+    if allAny (holds refused s0) Gen.GoawayArms.pendingDone then genAcceptNone s0 else some (s0, [.acceptPending])
   | id :: rest =>
     let rej := match s.sentClosing with
       | some maxId => cmp Gen.GoawayArms.rejectCmp id maxId
@@ -205,25 +223,36 @@ def genAcceptLoop (s : State) : List Nat → Option (State × List Obs)
     if rej then
       match rejectReading Gen.GoawayArms.rejectOps with
       | none => none
-      | some c =>
-        if holds s c then
+      | some (.noneIfElseNext c) =>
+        if holds refused s c then
           (genAcceptNone { s with incoming := rest }).map fun r => (r.1, .rejected id :: r.2)
-        else (genAcceptLoop s rest).map fun r => (r.1, .rejected id :: r.2)
+        else (genAcceptLoop refused s rest).map fun r => (r.1, .rejected id :: r.2)
+      | some (.next mark) => (genAcceptLoop (refused || mark) s rest).map fun r => (r.1, .rejected id :: r.2)
     else runSurface id rest Gen.GoawayArms.surfaceOps s
 
-theorem acceptLoop_agrees (s : State) (l : List Nat) : some (acceptLoop s l) = genAcceptLoop s l := by
-  induction l with
+/-- the model's loop is the generated one: a refusal raises the flag and goes on with the queue (no
+    `None` from inside the reject branch), `None` is decided only with an empty queue — under the
+    generated condition, which reads the flag -/
+theorem acceptLoop_agrees (refused : Bool) (s : State) (l : List Nat) :
+    some (acceptLoop refused s l) = genAcceptLoop refused s l := by
+  induction l generalizing refused with
   | nil =>
     simp only [acceptLoop, genAcceptLoop, ← drained_agrees, ← acceptNone_agrees]
     split <;> rfl
   | cons id rest ih =>
-    simp only [acceptLoop, genAcceptLoop, ← rejects_agrees, ← surface_agrees, ← acceptNone_agrees, ← ih]
+    simp only [acceptLoop, genAcceptLoop, ← rejects_agrees, ← surface_agrees]
     by_cases hr : rejects s.sentClosing id = true
     · simp only [hr, if_true]
-      have : rejectReading Gen.GoawayArms.rejectOps = some .requestsCompleted := rfl
-      simp only [this, holds]
-      by_cases he : s.ongoing.isEmpty = true <;> simp [he]
+      have : rejectReading Gen.GoawayArms.rejectOps = some (.next true) := rfl
+      simp only [this, Bool.or_true, ← ih]
+      rfl
     · simp [hr]
+
+/-- the flag starts lowered: `accept` enters the loop with `refused = false` -/
+theorem accept_enters_unrefused (s : State) (hf : s.failed = false) (hf1 : (procCtlServer s s.ctl).failed = false) :
+    some (accept s) = genAcceptLoop false (procCtlServer s s.ctl) (procCtlServer s s.ctl).incoming := by
+  rw [← acceptLoop_agrees]
+  simp [accept, hf, hf1]
 
 /-! ### `poll_requests_completion` (`H3.Drain`) -/
 
@@ -256,29 +285,43 @@ def dholds (s : Drain.State) : Gen.GoawayArms.Cond → Bool
   | .recvClosingIsSome => s.recvClosing
   | .sentClosingIsSome => false       -- no local `shutdown` in `H3.Drain`
   | .requestsCompleted => s.ongoing.isEmpty
+  | .rejectedHere => false            -- … hence no stream is ever rejected there
 
 /-- the `Ok(None)` decision of the drain model is the generated conjunction -/
 theorem verdict_agrees (s : Drain.State) :
     Drain.verdict s =
-      if Gen.GoawayArms.pendingDone.all (dholds s) then ({ s with inFlight := false }, [.acceptNone])
+      if allAny (dholds s) Gen.GoawayArms.pendingDone then ({ s with inFlight := false }, [.acceptNone])
       else (s, [.acceptPending]) := by
-  simp [Drain.verdict, Gen.GoawayArms.pendingDone, dholds]
+  simp [Drain.verdict, Gen.GoawayArms.pendingDone, dholds, allAny]
 
 /-! ### the client -/
 
 /-- `Connection::shutdown` of the client announces push identifier 0 whatever its argument;
-    `send_request` begins with the gate; the gate reads `SharedState.closing` — the flag
-    `set_closing()` raises in `shutdown` and `process_goaway` — and answers `RemoteClosing` -/
+    `send_request` has exactly two gates: it begins with one (`Goaway.sendCall`), and the statement
+    right behind `poll_open_bidi(..).await` — where the call may have waited for stream credit — is
+    the other (`Goaway.sendOpened`), in front of the statement that writes the request; the gate
+    reads `SharedState.closing` — the flag `set_closing()` raises in `shutdown` and `process_goaway`
+    — and answers `RemoteClosing` -/
 theorem client_items :
-    Gen.GoawayArms.clientShutdownId = 0 ∧ Gen.GoawayArms.sendRequestGateIndex = 0 ∧
+    Gen.GoawayArms.clientShutdownId = 0 ∧
+    Gen.GoawayArms.sendRequestGates = [0, Gen.GoawayArms.sendRequestOpenIndex + 1] ∧
+    Gen.GoawayArms.sendRequestOpenIndex + 1 < Gen.GoawayArms.sendRequestWriteIndex ∧
     Gen.GoawayArms.gateError = "RemoteClosing" ∧ Gen.GoawayArms.setClosingStores = true :=
-  ⟨rfl, rfl, rfl, rfl⟩
+  ⟨rfl, rfl, by decide, rfl, rfl⟩
 
-theorem sendRequest_gate (s : State) :
-    sendRequest s =
+theorem sendCall_gate (s : State) :
+    sendCall s =
       if s.closing = Gen.GoawayArms.setClosingStores then (s, [.remoteClosing])
-      else ({ s with opened := s.opened + 1 }, [.opened (4 * s.opened)]) := by
-  simp only [sendRequest, Gen.GoawayArms.setClosingStores]
+      else ({ s with parked := s.parked + 1 }, []) := by
+  simp only [sendCall, Gen.GoawayArms.setClosingStores]
+  cases s.closing <;> rfl
+
+theorem sendOpened_gate (s : State) (hp : s.parked ≠ 0) :
+    sendOpened s =
+      if s.closing = Gen.GoawayArms.setClosingStores then
+        ({ s with parked := s.parked - 1, opened := s.opened + 1 }, [.unused (4 * s.opened), .remoteClosing])
+      else ({ s with parked := s.parked - 1, opened := s.opened + 1 }, [.opened (4 * s.opened)]) := by
+  simp only [sendOpened, Gen.GoawayArms.setClosingStores, hp, if_false]
   cases s.closing <;> rfl
 
 end H3.GenAgree.Goaway
